@@ -4,6 +4,8 @@
 use std::process::exit;
 
 mod c16;
+mod rx;
+mod c09;
 
 fn main() {
     let args: Vec<String> = std::env::args().collect();
@@ -13,6 +15,8 @@ fn main() {
     }
     let code = match args[1].as_str() {
         "c16" => c16::main(&args[2..]),
+        "rx" => rx::main(&args[2..]),
+        "c09" => c09::main(&args[2..]),
         other => {
             eprintln!("unknown property {other}");
             2
